@@ -639,7 +639,14 @@ func (e *verifC11Env) stepID(vs *verifSess, tag string, raw []byte, recoverPanic
 		o.Infra = "session writer did not drain"
 	}
 	if rid != "" && o.Panic == "" && o.Infra == "" && !e.answered(vs, rid) {
-		verifC11Spin(time.Now().Add(verifC11SilenceWait), func() bool { return e.answered(vs, rid) })
+		wait := verifC11SilenceWait
+		if rid == verifC11NoID {
+			// a request without id whose (id-less) answer may still be on its way: a short grace period, so that a late
+			// answer is not attributed to the next input
+			wait = verifC11NoIDWait
+			rid = ""
+		}
+		verifC11Spin(time.Now().Add(wait), func() bool { return e.answered(vs, rid) })
 		if err := e.quiesce(); err != nil {
 			o.Infra = err.Error()
 		}
@@ -766,6 +773,11 @@ func (e *verifC11Env) absFrames(frames []verifFrame) []map[string]any {
 	}
 	return out
 }
+
+// verifC11NoID: passed as rid for a well-formed request that carries no id (see stepID)
+const verifC11NoID = "\x00noid"
+
+var verifC11NoIDWait = 60 * time.Millisecond
 
 // how long a request with an id may stay unanswered on a quiescent server before the harness records silence
 var verifC11SilenceWait = 2 * time.Second
